@@ -1,9 +1,9 @@
 SPECIFICATION Spec
 CONSTANTS
-  G = 4
-  DegInit = FALSE
+  G = 2
+  DegInit = TRUE
   MaxSpan = 99
-  MaxOps = 5
+  MaxOps = 3
   Weights <- W1
   Emit = TRUE
 INVARIANTS Sorted NonEmpty InBounds NoExcluded OfferOk NoLoss EmitDone
